@@ -63,6 +63,51 @@ def top5_scenarios(rng, n):
     return scs
 
 
+def top5_history_scenarios(rng, n):
+    """keep-alive histories of two or three calls with other functions / parameters, the longest tasks in an EARLIER call: the five
+    longest tasks since the workers started are still reported after the later calls (counts accumulate, and so does this list)"""
+    scs = []
+    for _ in range(n):
+        nj = rng.choice([1, 2, 3])
+        ops, durs = [], []
+        for k in range(rng.randint(2, 3)):
+            nn = rng.randint(3, 8)
+            unit = [0.1, 0.01, 0.001][k]
+            d = {str(i): round(unit * (i + 1), 4) for i in range(nn)}
+            durs.append(sorted(d.values()))
+            op = {'op': rng.choice(['map', 'map_unordered', 'imap', 'imap_unordered']), 'n': nn, 'chunk_size': 1, 'elem': 'scalar',
+                  'dur': {'kind': 'map', 'map': d, 'default': unit}}
+            if k and rng.random() < .4:
+                op['task_timeout'] = 50.0         # other parameters than the call before, also with the same function
+            ops.append(op)
+        scs.append({'seed': rng.randint(0, 10 ** 6), 'pool': {'n_jobs': nj, 'start_method': rng.choice(['fork', 'threading']), 'enable_insights': True, 'keep_alive': True},
+                    'ops': ops, 'same_func': rng.random() < .4, 'relax_shape': True, 'durs': durs})
+    return scs
+
+
+def _secs(x):
+    try:
+        h, m, s_ = str(x).split(':')
+        return round(int(h) * 3600 + int(m) * 60 + float(s_), 4)
+    except Exception:
+        return x
+
+
+def top5_history_judge(chk, sc, o):
+    if o.get('harness_error') or o.get('stuck') or len(o.get('ops', [])) != len(sc['ops']) or any(x.get('outcome') != 'ok' for x in o['ops']):
+        return
+    seen = []
+    for k, oo in enumerate(o['ops']):
+        seen += sc['durs'][k]
+        want = sorted(seen, reverse=True)[:5]
+        ins = oo.get('insights') or {}
+        got = [_secs(x) for x in ins.get('top_5_max_task_durations') or []]
+        if len(got) != len(want) or any(abs(a - b) > 0.002 for a, b in zip(got, want) if isinstance(a, float)):
+            chk.violation('top5_are_the_five_longest', {'scenario': sc}, {'after_call': k, 'reported': got, 'expected_seconds': want, 'args': ins.get('top_5_max_task_args')},
+                          'the five longest tasks since the workers started, longest first - also after later calls with other parameters', input_class='top5_history')
+            return
+
+
 def top5_judge(chk, sc, o):
     if o.get('harness_error') or o.get('stuck') or not o.get('ops') or o['ops'][0].get('outcome') != 'ok':
         return
@@ -150,6 +195,10 @@ def run(chk):
                   nontrivial=lambda sc, o: len(o.get('calls', [])) >= 2,
                   dist=lambda sc, o: {'keep_alive': bool(sc['pool'].get('keep_alive')), 'ops': len(sc['ops']), 'lifespan': sc['ops'][0].get('worker_lifespan') is not None,
                                       'start': sc['pool']['start_method']})
+    th = top5_history_scenarios(rng, 60 if chk.tier == 'quick' else 900)
+    for sc, o in zip(th, run_scenarios(chk, 'keep-alive histories: the longest tasks ran in an earlier call (DetSim)', th, {'C18', 'C01'}, nontrivial=lambda sc, o: True,
+                                       dist=lambda sc, o: {'calls': len(sc['ops']), 'same_func': sc['same_func'], 'n_jobs': sc['pool']['n_jobs']})):
+        top5_history_judge(chk, sc, o)
     ts = top5_scenarios(rng, 80 if chk.tier == 'quick' else 1200)
     tobs = run_scenarios(chk, 'top-5 content: known durations, with and without lifespan restarts (DetSim)', ts, {'C18'}, nontrivial=lambda sc, o: True,
                          dist=lambda sc, o: {'lifespan': sc['ops'][0].get('worker_lifespan'), 'start': sc['pool']['start_method']})
